@@ -427,3 +427,283 @@ def scratch_buffer_rule(ctx, rule, scope_rx, floor):
                        "every entry path to the fill passes a reset; the buffer written is exactly this record", f.loc(bi))
     ctx.floor(rule, "writer functions that fill a scratch field and write it out", n, floor)
     return n
+
+
+# ------------------------------------------------------------------------------------------------ element-wise resets
+ITER_SRC_RX = re.compile(r"(IntoIterator>::into_iter|::iter_mut)$")
+
+
+def _derived_from(f, seed):
+    """Forward closure: locals built from `seed` by moves, copies, borrows, projections, aggregates and results of calls that
+    are handed a derived value (iterator adapters, `next`, payload moves)."""
+    der = {seed}
+    changed = True
+    while changed:
+        changed = False
+        for blk in f.blocks:
+            if blk.get("cu"):
+                continue
+            for st in blk["s"]:
+                if st[0] != "=" or st[1][0] in der:
+                    continue
+                if any(l in der for op in R.rvalue_operands(st[2]) for l in R.operand_locals(op)):
+                    der.add(st[1][0])
+                    changed = True
+            t = blk["t"]
+            if t[0] == "call":
+                d = t[1].get("dest")
+                if d is not None and not d[1] and d[0] not in der and d[0] != 0:
+                    if any(C.op_local(a) in der for a in t[1]["args"] if C.op_local(a) is not None):
+                        der.add(d[0])
+                        changed = True
+    return der
+
+
+def element_reset_rule(ctx, rule, fkey, param, field_name, adt_key, what):
+    """A reused collection of buffers (`param.field`: one Vec per sample) whose ELEMENTS are handed to a filling callee: every
+    element is reset before it is filled — by a loop over the collection that clears each element (or a clear of the whole
+    collection) passed on every path from the entry, or by a callee that itself resets its destination on all of its success
+    paths. An element that is only filled conditionally keeps the previous record's content otherwise."""
+    fb = ctx.fb
+    f = ctx.body(rule, fkey)
+    adt = fb.adts.get(adt_key)
+    if f is None:
+        return
+    fields = ((adt or {}).get("variants") or [{}])[0].get("fields") or []
+    idx = next((i for i, fl in enumerate(fields) if fl["name"] == field_name), None)
+    if idx is None:
+        ctx.violation(rule, "%s/ANCHOR-MISSING/%s.%s" % (rule, adt_key, field_name), "field %s.%s not found" % (adt_key, field_name), f.loc())
+        return
+    bd = Body(fb, f)
+    X = (("p", param), ("*", ("f", idx)))
+    memo = {}
+    # iterators over X
+    fills, elem_kills, whole_kills = [], [], []
+    for bi, c in f.calls():
+        fk = c.get("f") or ""
+        if not ITER_SRC_RX.search(fk) or not c["args"] or c.get("dest") is None or c["dest"][1]:
+            continue
+        pt = bd.pointee(c["args"][0])
+        if pt != X:
+            continue
+        der = _derived_from(f, c["dest"][0])
+        for bj, c2 in f.calls():
+            fk2 = c2.get("f") or ""
+            if bj == bi:
+                continue
+            if fk2.endswith("::for_each") and len(c2["args"]) == 2 and C.op_local(c2["args"][0]) in der:
+                # `xs.iter_mut().for_each(Vec::clear)` / `.for_each(|v| v.clear())`
+                a1 = c2["args"][1]
+                ty = a1[1].get("ty", "") if a1[0] == "k" else f.locals[C.op_local(a1)] if C.op_local(a1) is not None else ""
+                clos = [h for h in fb.fns.values() if h.is_closure and h.parent == f.key and h.blocks and
+                        any(KILL_RX.search(cc.get("f") or "") for _b, cc in h.calls())]
+                if re.search(r"::clear\b", ty) or ("closure" in ty and clos):
+                    whole_kills.append(bj)
+                continue
+            hit = [j for j, a in enumerate(c2["args"]) if C.op_local(a) in der and f.locals[C.op_local(a)].startswith("&mut ")
+                   and "Iter" not in f.locals[C.op_local(a)] and "Zip" not in f.locals[C.op_local(a)]]
+            if not hit:
+                continue
+            if KILL_RX.search(fk2):
+                elem_kills.append((bj, bi))
+            elif fk2 in fb.fns:
+                fills.append((bj, fk2, hit[0]))
+    loops = C.natural_loops(f)
+    kill_gates = set(kill_blocks(fb, bd, X, memo)) | set(whole_kills)          # a clear of the whole collection / for_each(clear)
+    for kb, _src in elem_kills:
+        for h, body in loops:
+            if kb in body:
+                kill_gates.add(h)                            # passing the loop head = running the clearing loop
+    if not fills:
+        ctx.violation(rule, "%s/ANCHOR-MISSING/%s/fill" % (rule, fkey), "%s no longer hands the elements of %s to a filling callee" % (fkey, what), f.loc())
+        return
+    for bj, gk, j in fills:
+        g = fb.fns[gk]
+        if R.param_definitely_reset(fb, g, j + 1, 2, {}):
+            ctx.ok(rule, "%s -> %s" % (fkey, gk.split("::")[-1]), "the callee resets its destination on every success path", f.loc(bj))
+            continue
+        open_ = C.reachable(f, 0, removed=kill_gates) if 0 not in kill_gates else set()
+        if bj in open_:
+            ctx.violation(rule, "%s/element-not-reset/%s/%s" % (rule, fkey, gk.split("::")[-1]),
+                          "%s hands each element of %s to %s, which can return Ok without clearing or overwriting it (early return / "
+                          "conditional fill), and no loop clears the elements on the way from the entry: with a reused destination an element "
+                          "that is not filled this time keeps the previous record's values" % (fkey, what, gk.split("::")[-1]), f.loc(bj))
+        else:
+            ctx.ok(rule, "%s -> %s" % (fkey, gk.split("::")[-1]),
+                   "every entry path to the fill passes a loop that clears each element (or a clear of the whole collection)", f.loc(bj))
+
+
+# ------------------------------------------------------------------------------------------------ CR pop takes bytes of this call
+POP_RX = re.compile(r"(Vec::<T, A>::pop|string::String::pop)$")
+ENDS_WITH_RX = re.compile(r"::ends_with$")
+
+
+def _needle_values(f, op, depth=0):
+    """Constant byte/char values a needle operand is built from (char const, &[u8; N] of consts)."""
+    if depth > 8:
+        return set()
+    if op[0] == "k":
+        v = op[1].get("v")
+        if isinstance(v, int):
+            return {v}
+        raw = op[1].get("raw")
+        if raw and len(raw) <= 8:
+            return set(bytes.fromhex(raw))
+        return set()
+    l = C.op_local(op)
+    if l is None:
+        pl = C.op_place(op)
+        l = pl[0] if pl else None
+    if l is None:
+        return set()
+    out = set()
+    for d in C.defs(f).get(l, []):
+        if d[0] != "=":
+            continue
+        rv = d[3]
+        if rv[0] == "agg":
+            for o in rv[4]:
+                out |= _needle_values(f, o, depth + 1)
+        else:
+            for o in R.rvalue_operands(rv):
+                out |= _needle_values(f, o, depth + 1)
+    return out
+
+
+def _count_guarded(f, bi):
+    """Is block bi reachable only through an edge that establishes `count >= 2` for some integer (n > 1, n >= 2, 1 < n, 2 <= n, n != 1
+    after a zero test is NOT accepted)?"""
+    for b, kind, ops, t_t, f_t in R._cmp_switches(f):
+        if kind not in ("Gt", "Ge", "Lt", "Le"):
+            continue
+        ka, kb_ = C.op_const(ops[0]), C.op_const(ops[1])
+        va = ka.get("v") if ka else None
+        vb = kb_.get("v") if kb_ else None
+        enough = None       # which edge establishes count >= 2
+        if kind == "Gt" and isinstance(vb, int) and vb >= 1:
+            enough = t_t
+        elif kind == "Ge" and isinstance(vb, int) and vb >= 2:
+            enough = t_t
+        elif kind == "Lt" and isinstance(va, int) and va >= 1:
+            enough = t_t
+        elif kind == "Le" and isinstance(va, int) and va >= 2:
+            enough = t_t
+        elif kind == "Le" and isinstance(vb, int) and vb >= 1:      # !(n <= 1)
+            enough = f_t
+        elif kind == "Lt" and isinstance(vb, int) and vb >= 2:      # !(n < 2)
+            enough = f_t
+        if enough is None:
+            continue
+        other = f_t if enough == t_t else t_t
+        if bi in C.reachable(f, enough, removed={b}) and bi not in C.reachable(f, other, removed={b}) and bi not in C.reachable(f, 0, removed={b}):
+            return True
+    return False
+
+
+def cr_pop_rule(ctx, rule, scope_rx, floor):
+    """A line reader that appends to a buffer it did not empty (its caller's) and then strips the line ending must not remove a
+    byte that was there before the call. The LF is safe (the call read at least one byte and the buffer ends with it); the CR pop
+    needs `bytes read by this call >= 2` — or every caller hands over a buffer that is EMPTY at the call (reset, and no other call
+    was given `&mut` access to it since). Defect F30: read_field / read_line after earlier fields popped the previous field's CR."""
+    fb = ctx.fb
+    rx = re.compile(scope_rx)
+    memo = {}
+    bodies = {}
+
+    def body(f):
+        if f.key not in bodies:
+            bodies[f.key] = Body(fb, f)
+        return bodies[f.key]
+
+    # 1. direct unguarded CR pops on a parameter-rooted buffer that the function does not reset first
+    poppers = defaultdict(dict)     # logical key -> {param: (fn, block)}
+    npop = 0
+    for f in sorted(fb.fns.values(), key=lambda f: f.key):
+        if not f.blocks or not rx.search(logical(fb, f).key):
+            continue
+        bd = None
+        for bi, c in f.calls():
+            if not POP_RX.search(c.get("f") or "") or not c["args"]:
+                continue
+            bd = bd or body(f)
+            ident = bd.pointee(c["args"][0])
+            if ident is None or ident[0][0] != "p" or ident[1] != ("*",):
+                continue
+            # is this the CR pop?  dominated by an ends_with(.., CR) on the same buffer
+            cr = False
+            for bj, c2 in f.calls():
+                if ENDS_WITH_RX.search(c2.get("f") or "") and len(c2["args"]) == 2 and C.dominates(f, bj, bi) and 13 in _needle_values(f, c2["args"][1]):
+                    if _shared_pointee(bd, c2["args"][0]) == ident:
+                        cr = True
+            if not cr:
+                continue
+            npop += 1
+            ctx.saw_fn(f)
+            kb = kill_blocks(fb, bd, ident, memo)
+            if 0 in kb or bi not in C.reachable(f, 0, removed=kb):
+                ctx.ok(rule, "%s :: CR pop" % f.key, "the function empties the buffer itself before it appends", f.loc(bi))
+                continue
+            if _count_guarded(f, bi):
+                ctx.ok(rule, "%s :: CR pop" % f.key, "guarded by `bytes read by this call >= 2`: the byte removed was read by this call", f.loc(bi))
+                continue
+            poppers[logical(fb, f).key][ident[0][1]] = (f, bi)
+    # 2. callers: the buffer must be empty at the call, or the obligation moves up
+    changed = True
+    rounds = 0
+    checked = set()
+    while changed and rounds < 6:
+        changed = False
+        rounds += 1
+        for f in sorted(fb.fns.values(), key=lambda f: f.key):
+            if not f.blocks:
+                continue
+            bd = None
+            for bi, c in f.calls():
+                fk = c.get("f") or ""
+                if fk not in poppers:
+                    continue
+                for pi, (pf, pb) in list(poppers[fk].items()):
+                    if pi - 1 >= len(c["args"]) or (f.key, bi, pi) in checked:
+                        continue
+                    bd = bd or body(f)
+                    ident = bd.pointee(c["args"][pi - 1])
+                    if ident is None:
+                        continue
+                    checked.add((f.key, bi, pi))
+                    kb = kill_blocks(fb, bd, ident, memo)
+                    # other calls that get &mut access to the same buffer
+                    writers = set()
+                    for bj, c2 in f.calls():
+                        fk2 = c2.get("f") or ""
+                        if KILL_RX.search(fk2) or READONLY_RX.search(fk2) or POP_RX.search(fk2) or VIEW_RX.search(fk2):
+                            continue
+                        g2 = fb.fns.get(fk2)
+                        if g2 is not None and g2.argc == 1 and g2.locals[0].startswith("&mut ") and g2.locals[1].startswith("&mut "):
+                            continue        # `&mut self -> &mut Field` accessor: a view, not a write
+                        for a in c2["args"]:
+                            l = C.op_local(a)
+                            if l is not None and f.locals[l].startswith("&mut ") and bd.pointee(a) == ident:
+                                writers.add(bj)
+                    entry_open = bi in (C.reachable(f, 0, removed=kb) if 0 not in kb else set())
+                    dirty = [w for w in writers if f.blocks[w]["t"][1].get("t") is not None and f.blocks[w]["t"][1]["t"] not in kb
+                             and bi in C.reachable(f, f.blocks[w]["t"][1]["t"], removed=kb)]
+                    lf = logical(fb, f)
+                    if ident[0][0] == "p" and entry_open and not dirty:
+                        # hands its own caller's buffer on untouched: the obligation moves up
+                        if ident[0][1] not in poppers[lf.key]:
+                            poppers[lf.key][ident[0][1]] = (pf, pb)
+                            changed = True
+                        continue
+                    ctx.saw_fn(f)
+                    if dirty or entry_open:
+                        via = f.blocks[dirty[0]]["t"][1].get("f", "").split("::")[-1] if dirty else "the function entry"
+                        ctx.violation(rule, "%s/cr-pop-takes-earlier-byte/%s/%s" % (rule, lf.key, fk.split("::")[-1]),
+                                      "%s calls %s on %s after %s already wrote to the buffer (no reset in between), and %s strips a trailing "
+                                      "CR from the whole buffer without checking that this call read at least two bytes: when it reads only the "
+                                      "line feed, the CR removed is the last byte of the earlier content, whose recorded end then lies past the "
+                                      "end of the buffer (accessor panics on a record returned Ok)" % (
+                                          lf.key, fk.split("::")[-1], fmt_ident(f, ident), via, pf.key), f.loc(bi))
+                    else:
+                        ctx.ok(rule, "%s -> %s" % (lf.key, fk.split("::")[-1]), "the buffer is empty at the call (reset on every path, no writer in between)", f.loc(bi))
+    ctx.count("unguarded_cr_poppers", len(poppers))
+    ctx.floor(rule, "CR pops on a caller-provided buffer", npop, floor)
